@@ -85,110 +85,146 @@ func vPreludeSafe(t *testing.T) {
 	vHostilePrelude(t)
 }
 
-// vSanity checks a handful of API facts against math/big oracles; "" when all hold.  scope selects the facts a property
-// is about: "scalar", "element" (which needs scalars for Multiply), "hash", or "all".
+// vSanity checks API facts against math/big oracles; "" when all hold.  scope is a property id: only the facts that property
+// is about are checked ("all", "", C10, C15, C16: every fact), so that a replay never blames a property for a defect elsewhere.
 func vSanity(t *testing.T, scope string) string {
-	if scope == "" {
-		scope = "all"
+	rel := func(pids ...string) bool {
+		switch scope {
+		case "", "all", "C10", "C15", "C16":
+			return true
+		}
+		for _, p := range pids {
+			if p == scope {
+				return true
+			}
+		}
+		return false
 	}
-	if scope == "hash" {
+	g := vG()
+	nm1v, nm2v := new(big.Int).Sub(vN, big.NewInt(1)), new(big.Int).Sub(vN, big.NewInt(2))
+	one, zero, two, nm1, nm2 := vScalarOf(t, big.NewInt(1)), vScalarOf(t, big.NewInt(0)), vScalarOf(t, big.NewInt(2)), vScalarOf(t, nm1v), vScalarOf(t, nm2v)
+	if rel("C07", "C18") {
+		for _, v := range []*big.Int{nm1v, nm2v, big.NewInt(1)} {
+			d := NewScalar()
+			if err := d.Decode(vPad32(v)); err != nil {
+				return "sanity: Decode(" + v.Text(16) + ") rejected: " + err.Error()
+			}
+			if !bytes.Equal(d.Encode(), vPad32(v)) {
+				return "sanity: Encode(Decode(" + v.Text(16) + ")) is not the input"
+			}
+		}
+		if NewScalar().Decode(vPad32(vN)) == nil {
+			return "sanity: Decode(n) accepted"
+		}
+		if !bytes.Equal(nm2.Encode(), vPad32(nm2v)) || !bytes.Equal(one.Encode(), vPad32(big.NewInt(1))) {
+			return "sanity: Encode is not the canonical big-endian value"
+		}
+	}
+	if rel("C06") && !bytes.Equal(Order(), vPad32(vN)) {
+		return "sanity: Order() is not n"
+	}
+	if rel("C13") {
+		if !one.IsOne() || zero.IsOne() || nm1.IsOne() || two.IsOne() {
+			return "sanity: IsOne disagrees with the canonical value"
+		}
+		if !zero.IsZero() || one.IsZero() || nm1.IsZero() || !NewScalar().IsZero() {
+			return "sanity: IsZero disagrees with the canonical value"
+		}
+		if one.Equal(one.Copy()) != 1 || one.Equal(nm1) != 0 || nm1.Equal(vScalarOf(t, nm1v)) != 1 {
+			return "sanity: Equal disagrees with the canonical values"
+		}
+		if one.LessOrEqual(nm1) != 1 || nm1.LessOrEqual(one) != 0 || nm2.LessOrEqual(nm1) != 1 || nm1.LessOrEqual(nm2) != 0 || nm1.LessOrEqual(nm1) != 1 {
+			return "sanity: LessOrEqual disagrees with the canonical values"
+		}
+	}
+	if rel("C06") {
+		raw := func(s *Scalar) *big.Int { // value of the limbs, without going through Encode
+			v := new(big.Int)
+			for i := 3; i >= 0; i-- {
+				v.Lsh(v, 64)
+				v.Or(v, new(big.Int).SetUint64(s.S[i]))
+			}
+			return v
+		}
+		same := func(s *Scalar, v *big.Int) bool { return raw(s).Cmp(raw(vScalarOf(t, v))) == 0 }
+		if !same(NewScalar().MinusOne(), nm1v) || !same(NewScalar().One(), big.NewInt(1)) || !same(NewScalar().Zero(), big.NewInt(0)) || !same(NewScalar().SetUInt64(1), big.NewInt(1)) {
+			return "sanity: Zero/One/MinusOne/SetUInt64 do not set 0, 1, n-1, 1"
+		}
+		if !same(two.Copy().Pow(nm1), big.NewInt(1)) || !same(vScalarOf(t, big.NewInt(3)).Pow(vScalarOf(t, big.NewInt(5))), big.NewInt(243)) {
+			return "sanity: Pow is not exponentiation mod n"
+		}
+		if !same(two.Copy().Invert().Multiply(two), big.NewInt(1)) || !same(nm1.Copy().Add(two), big.NewInt(1)) || !same(one.Copy().Subtract(two), nm1v) {
+			return "sanity: scalar arithmetic is not arithmetic mod n"
+		}
+	}
+	if rel("C14") {
+		b := nm2.Bits()
+		for i := 0; i < 256; i++ {
+			if uint(b[i]) != nm2v.Bit(i) {
+				return "sanity: Bits() is not the canonical bit string"
+			}
+		}
+	}
+	p5 := vMulPt(big.NewInt(5), g)
+	e := vElementOf(p5, big.NewInt(7))
+	if rel("C04") {
+		for _, id := range []*Element{NewElement(), vElementOf(vInf(), big.NewInt(9))} {
+			if !bytes.Equal(id.Encode(), []byte{0}) || !bytes.Equal(id.EncodeUncompressed(), []byte{0}) {
+				return "sanity: an identity does not encode as the single byte 00"
+			}
+		}
+		if !bytes.Equal(vElementOf(g, big.NewInt(1)).Encode(), vSec1(g, true)) || !bytes.Equal(vElementOf(g, big.NewInt(1)).EncodeUncompressed(), vSec1(g, false)) {
+			return "sanity: (Gx : Gy : 1) does not encode as G"
+		}
+		if !bytes.Equal(e.Encode(), vSec1(p5, true)) || !bytes.Equal(e.EncodeUncompressed(), vSec1(p5, false)) || !bytes.Equal(e.XCoordinate(), vSec1(p5, true)[1:]) {
+			return "sanity: encodings of 5G are not SEC1"
+		}
+	}
+	if rel("C05") {
+		if !NewElement().IsIdentity() || !vElementOf(vInf(), big.NewInt(9)).IsIdentity() || e.IsIdentity() {
+			return "sanity: IsIdentity wrong"
+		}
+		if e.Equal(vElementOf(p5, big.NewInt(3))) != 1 || e.Equal(vElementOf(vNeg(p5), big.NewInt(3))) != 0 || e.Equal(NewElement()) != 0 {
+			return "sanity: Equal wrong on 5G"
+		}
+	}
+	if rel("C03", "C04") {
+		for _, comp := range []bool{true, false} {
+			for _, pt := range []vPt{p5, vNeg(p5)} {
+				d := NewElement()
+				if err := d.Decode(vSec1(pt, comp)); err != nil {
+					return "sanity: Decode rejects a valid encoding of +-5G"
+				}
+				if got, ok := vPointOf(d); !ok || !vSame(got, pt) {
+					return "sanity: Decode(+-5G) is not that point"
+				}
+			}
+		}
+	}
+	if rel("C01") {
+		if got, ok := vPointOf(vElementOf(g, big.NewInt(1)).Multiply(nm2)); !ok || !vSame(got, vMulPt(nm2v, g)) {
+			return "sanity: [n-2]G wrong"
+		}
+	}
+	if rel("C02") {
+		if got, ok := vPointOf(e.Copy().Add(vElementOf(g, big.NewInt(1))).Double()); !ok || !vSame(got, vMulPt(big.NewInt(12), g)) {
+			return "sanity: 2(5G+G) wrong"
+		}
+		if got, ok := vPointOf(vElementOf(g, big.NewInt(1)).Subtract(vElementOf(g, big.NewInt(3)))); !ok || !got.inf {
+			return "sanity: G - G is not the identity"
+		}
+	}
+	if rel("C08", "C17") {
 		dst := []byte("QUUX-V01-CS02-with-secp256k1_XMD:SHA-256_SSWU_RO_")
 		if got, ok := vPointOf(HashToGroup([]byte("abc"), dst)); !ok || !vSame(got, vHashToCurve([]byte("abc"), dst, true)) {
 			return "sanity: HashToGroup(abc) is not the RFC 9380 point"
 		}
-		return ""
 	}
-	g := vG()
-	one, zero, two := vScalarOf(t, big.NewInt(1)), vScalarOf(t, big.NewInt(0)), vScalarOf(t, big.NewInt(2))
-	nm1v, nm2v := new(big.Int).Sub(vN, big.NewInt(1)), new(big.Int).Sub(vN, big.NewInt(2))
-	nm1 := NewScalar()
-	if err := nm1.Decode(vPad32(nm1v)); err != nil {
-		return "sanity: Decode(n-1) rejected: " + err.Error()
-	}
-	nm2 := NewScalar()
-	if err := nm2.Decode(vPad32(nm2v)); err != nil {
-		return "sanity: Decode(n-2) rejected: " + err.Error()
-	}
-	if NewScalar().Decode(vPad32(vN)) == nil {
-		return "sanity: Decode(n) accepted"
-	}
-	if !bytes.Equal(Order(), vPad32(vN)) {
-		return "sanity: Order() is not n"
-	}
-	if !one.IsOne() || zero.IsOne() || nm1.IsOne() || two.IsOne() || !NewScalar().One().IsOne() || !NewScalar().SetUInt64(1).IsOne() {
-		return "sanity: IsOne disagrees with the canonical value"
-	}
-	if !zero.IsZero() || one.IsZero() || nm1.IsZero() || !NewScalar().IsZero() {
-		return "sanity: IsZero disagrees with the canonical value"
-	}
-	if vScalarVal(NewScalar().MinusOne()).Cmp(nm1v) != 0 || vScalarVal(NewScalar().One()).Cmp(big.NewInt(1)) != 0 || vScalarVal(NewScalar().Zero()).Sign() != 0 {
-		return "sanity: Zero/One/MinusOne do not set 0, 1, n-1"
-	}
-	if one.Equal(one.Copy()) != 1 || one.Equal(nm1) != 0 || nm1.Equal(NewScalar().MinusOne()) != 1 {
-		return "sanity: Equal disagrees with the canonical values"
-	}
-	if one.LessOrEqual(nm1) != 1 || nm1.LessOrEqual(one) != 0 || nm2.LessOrEqual(nm1) != 1 || nm1.LessOrEqual(nm2) != 0 || nm1.LessOrEqual(nm1) != 1 {
-		return "sanity: LessOrEqual disagrees with the canonical values"
-	}
-	if !bytes.Equal(nm2.Encode(), vPad32(nm2v)) || !bytes.Equal(one.Encode(), vPad32(big.NewInt(1))) {
-		return "sanity: Encode is not the canonical big-endian value"
-	}
-	if vScalarVal(two.Copy().Pow(nm1)).Cmp(big.NewInt(1)) != 0 || vScalarVal(vScalarOf(t, big.NewInt(3)).Pow(vScalarOf(t, big.NewInt(5)))).Cmp(big.NewInt(243)) != 0 {
-		return "sanity: Pow is not exponentiation mod n"
-	}
-	if vScalarVal(two.Copy().Invert().Multiply(two)).Cmp(big.NewInt(1)) != 0 || vScalarVal(nm1.Copy().Add(two)).Cmp(big.NewInt(1)) != 0 || vScalarVal(one.Copy().Subtract(two)).Cmp(nm1v) != 0 {
-		return "sanity: scalar arithmetic is not arithmetic mod n"
-	}
-	b := nm2.Bits()
-	for i := 0; i < 256; i++ {
-		if uint(b[i]) != nm2v.Bit(i) {
-			return "sanity: Bits() is not the canonical bit string"
+	if rel("C09", "C17") {
+		dst := []byte("QUUX-V01-CS02-with-secp256k1_XMD:SHA-256_SSWU_RO_")
+		if !bytes.Equal(HashToScalar([]byte("abc"), dst).Encode(), vPad32(new(big.Int).Mod(new(big.Int).SetBytes(vExpandXMD([]byte("abc"), dst, 48)), vN))) {
+			return "sanity: HashToScalar(abc) is not the RFC 9380 scalar"
 		}
-	}
-	if scope == "scalar" {
-		return ""
-	}
-	for _, id := range []*Element{NewElement(), NewElement().Identity(), Base().Subtract(Base()), Base().Multiply(nm1).Add(Base()), Base().Multiply(zero)} {
-		if !bytes.Equal(id.Encode(), []byte{0}) || !bytes.Equal(id.EncodeUncompressed(), []byte{0}) || !id.IsIdentity() {
-			return "sanity: an identity does not encode as the single byte 00"
-		}
-	}
-	if !bytes.Equal(Base().Encode(), vSec1(g, true)) || !bytes.Equal(Base().EncodeUncompressed(), vSec1(g, false)) {
-		return "sanity: Base() does not encode as G"
-	}
-	p5 := vMulPt(big.NewInt(5), g)
-	e := vElementOf(p5, big.NewInt(7))
-	if !bytes.Equal(e.Encode(), vSec1(p5, true)) || !bytes.Equal(e.EncodeUncompressed(), vSec1(p5, false)) || !bytes.Equal(e.XCoordinate(), vSec1(p5, true)[1:]) {
-		return "sanity: encodings of 5G are not SEC1"
-	}
-	for _, comp := range []bool{true, false} {
-		d := NewElement()
-		if err := d.Decode(vSec1(p5, comp)); err != nil {
-			return "sanity: Decode rejects 5G"
-		}
-		if got, ok := vPointOf(d); !ok || !vSame(got, p5) || d.Equal(e) != 1 {
-			return "sanity: Decode(5G) is not 5G"
-		}
-		d2 := NewElement()
-		if err := d2.Decode(vSec1(vNeg(p5), comp)); err != nil {
-			return "sanity: Decode rejects -5G"
-		}
-		if got, ok := vPointOf(d2); !ok || !vSame(got, vNeg(p5)) || d2.Equal(e) != 0 {
-			return "sanity: Decode(-5G) is not -5G"
-		}
-	}
-	if got, ok := vPointOf(Base().Multiply(nm2)); !ok || !vSame(got, vMulPt(nm2v, g)) {
-		return "sanity: [n-2]G wrong"
-	}
-	if got, ok := vPointOf(e.Copy().Add(Base()).Double()); !ok || !vSame(got, vMulPt(big.NewInt(12), g)) {
-		return "sanity: 2(5G+G) wrong"
-	}
-	if scope == "element" {
-		return ""
-	}
-	dst := []byte("QUUX-V01-CS02-with-secp256k1_XMD:SHA-256_SSWU_RO_")
-	if got, ok := vPointOf(HashToGroup([]byte("abc"), dst)); !ok || !vSame(got, vHashToCurve([]byte("abc"), dst, true)) {
-		return "sanity: HashToGroup(abc) is not the RFC 9380 point"
 	}
 	return ""
 }
